@@ -983,4 +983,258 @@ theorem readBlocks_panic (cfg : Cfg α ε) (hd : ∀ c k, cfg.decomp c ≠ .pani
 
 end
 
+/-! ### The step budget `length + 1` is always enough -/
+
+theorem ioUvarintAux_length : ∀ (bs : Bytes) (i x n : Nat) (r : Bytes), ioUvarintAux i x bs = .ok (n, r) → r.length < bs.length := by
+  intro bs
+  induction bs with
+  | nil => intro i x n r h; simp only [ioUvarintAux] at h; split at h <;> (try split at h) <;> cases h
+  | cons b tl ih =>
+    intro i x n r h
+    simp only [ioUvarintAux] at h
+    split at h
+    · cases h
+    · split at h
+      · split at h
+        · cases h
+        · cases h; simp
+      · have := ih _ _ _ _ h; simp; omega
+
+theorem ioVarint_length {bs : Bytes} {v : Int} {r : Bytes} (h : ioVarint bs = .ok (v, r)) : r.length < bs.length := by
+  unfold ioVarint at h
+  split at h
+  · rename_i n rest hn; cases h; exact ioUvarintAux_length _ _ _ _ _ hn
+  · cases h
+
+theorem readFull_length {n : Nat} {bs a r : Bytes} (h : readFull n bs = .ok (a, r)) : r.length ≤ bs.length := by
+  have := (readFull_ok_length h).2
+  rw [this]; simp
+
+theorem makeBytes_ne_fuel (n : Int) : makeBytes n ≠ .fuel := by
+  unfold makeBytes; split
+  · simp
+  · split <;> simp
+
+theorem readBytes_ne_fuel (ek : ErrKind) (bs : Bytes) : readBytes ek bs ≠ .fuel := by
+  unfold readBytes
+  split
+  · simp
+  · split
+    · simp
+    · cases hm : makeBytes _ with
+      | ok u => simp only [Step.bind_eq, Step.bind_ok']; split <;> simp
+      | err e => simp
+      | panic k => simp
+      | fuel => exact absurd hm (makeBytes_ne_fuel _)
+
+theorem readBytes_length {ek : ErrKind} {bs v r : Bytes} (h : readBytes ek bs = .ok (v, r)) : r.length < bs.length := by
+  unfold readBytes at h
+  split at h
+  · cases h
+  · rename_i l r1 hv
+    have h1 := ioVarint_length hv
+    split at h
+    · cases h
+    · cases hm : makeBytes l with
+      | ok u =>
+        rw [hm] at h
+        simp only [Step.bind_eq, Step.bind_ok'] at h
+        split at h
+        · rename_i v' r' hf
+          have := readFull_length hf
+          simp only [Step.pure_eq, Step.ok.injEq, Prod.mk.injEq] at h
+          obtain ⟨_, rfl⟩ := h
+          omega
+        · cases h
+      | err e => rw [hm] at h; cases h
+      | panic k => rw [hm] at h; cases h
+      | fuel => rw [hm] at h; cases h
+
+theorem readEntries_fuel : ∀ (n : Nat) (bs : Bytes) (m : Meta), readEntries n bs m ≠ .fuel ∧
+    ∀ m' r, readEntries n bs m = .ok (m', r) → r.length ≤ bs.length := by
+  intro n
+  induction n with
+  | zero => intro bs m; simp [readEntries]
+  | succ n ih =>
+    intro bs m
+    simp only [readEntries, Step.bind_eq]
+    cases h1 : readBytes .metaKey bs with
+    | ok x =>
+      have l1 := readBytes_length (show readBytes .metaKey bs = .ok (x.1, x.2) from h1)
+      simp only [Step.bind_ok']
+      cases h2 : readBytes .metaVal x.2 with
+      | ok y =>
+        have l2 := readBytes_length (show readBytes .metaVal x.2 = .ok (y.1, y.2) from h2)
+        simp only [Step.bind_ok']
+        have := ih y.2 ((x.1, y.1) :: m)
+        exact ⟨this.1, fun m' r h => by have := this.2 m' r h; omega⟩
+      | err e => simp
+      | panic k => simp
+      | fuel => exact absurd h2 (readBytes_ne_fuel _ _)
+    | err e => simp
+    | panic k => simp
+    | fuel => exact absurd h1 (readBytes_ne_fuel _ _)
+
+theorem readMeta_fuel : ∀ (fuel : Nat) (bs : Bytes) (m : Meta), bs.length < fuel → readMeta fuel bs m ≠ .fuel ∧
+    ∀ m' r, readMeta fuel bs m = .ok (m', r) → r.length ≤ bs.length := by
+  intro fuel
+  induction fuel with
+  | zero => intro bs m h; omega
+  | succ fuel ih =>
+    intro bs m hf
+    simp only [readMeta]
+    split
+    · simp
+    · rename_i c r hv
+      have l1 := ioVarint_length hv
+      split
+      · exact ⟨by simp, fun m' r' h => by cases h; omega⟩
+      · split
+        · simp
+        · simp only [Step.bind_eq]
+          cases h1 : readEntries c.toNat r m with
+          | ok x =>
+            have l2 := (readEntries_fuel c.toNat r m).2 x.1 x.2 h1
+            simp only [Step.bind_ok']
+            have := ih x.2 x.1 (by omega)
+            exact ⟨this.1, fun m' r' h => by have := this.2 m' r' h; omega⟩
+          | err e => simp
+          | panic k => simp
+          | fuel => exact absurd h1 (readEntries_fuel _ _ _).1
+
+theorem readFileHeader_fuel (fuel : Nat) (bs : Bytes) (hf : bs.length < fuel) : readFileHeader fuel bs ≠ .fuel ∧
+    ∀ H r, readFileHeader fuel bs = .ok (H, r) → r.length ≤ bs.length := by
+  unfold readFileHeader
+  split
+  · simp
+  · rename_i mg r hm
+    have l1 := readFull_length hm
+    split
+    · simp
+    · simp only [Step.bind_eq]
+      cases h1 : readMeta fuel r [] with
+      | ok x =>
+        have l2 := (readMeta_fuel fuel r [] (by omega)).2 x.1 x.2 h1
+        simp only [Step.bind_ok']
+        split
+        · simp
+        · rename_i s r'' hs
+          have l3 := readFull_length hs
+          exact ⟨by simp, fun H r' h => by simp only [Step.pure_eq, Step.ok.injEq, Prod.mk.injEq] at h; obtain ⟨_, rfl⟩ := h; omega⟩
+      | err e => simp
+      | panic k => simp
+      | fuel => exact absurd h1 (readMeta_fuel fuel r [] (by omega)).1
+
+theorem blockHead_fuel (bs : Bytes) : blockHead bs ≠ .fuel ∧
+    ∀ c comp r3, blockHead bs = .ok (some (c, comp, r3)) → r3.length < bs.length := by
+  unfold blockHead
+  split
+  · simp
+  · simp
+  · rename_i c r1 h1
+    have l1 := ioVarint_length h1
+    split
+    · simp
+    · rename_i l r2 h2
+      have l2 := ioVarint_length h2
+      split
+      · simp
+      · cases hm : makeBytes l with
+        | ok u =>
+          simp only [Step.bind_eq, Step.bind_ok']
+          split
+          · simp
+          · rename_i comp r3 hf
+            have l3 := readFull_length hf
+            exact ⟨by simp, fun c' comp' r3' h => by
+              simp only [Step.pure_eq, Step.ok.injEq, Option.some.injEq, Prod.mk.injEq] at h
+              obtain ⟨_, _, rfl⟩ := h; omega⟩
+        | err e => simp
+        | panic k => simp
+        | fuel => exact absurd hm (makeBytes_ne_fuel _)
+
+theorem decompress_ne_fuel {α : Type} (X : Ext α) (sel : CodecSel) (c : Bytes) : decompress X sel c ≠ .fuel := by
+  cases sel with
+  | null => simp [decompress]
+  | deflate => simp only [decompress]; split <;> simp
+  | snappy =>
+    simp only [decompress]
+    split
+    · simp
+    · split
+      · split
+        · simp
+        · split <;> simp
+      · simp
+
+section
+variable {α ε : Type}
+
+theorem deliver_ne_fuel (decode : Bytes → Outcome (α × Bytes)) (cb : Nat → Option ε) :
+    ∀ (n : Nat) (buf : Bytes) (idx : Nat), (deliver decode cb n buf idx).2 ≠ some .fuel := by
+  intro n
+  induction n with
+  | zero => intro buf idx; simp [deliver]
+  | succ n ih =>
+    intro buf idx
+    simp only [deliver]
+    split
+    · split
+      · simp
+      · exact ih _ _
+    all_goals simp
+
+theorem readBlocks_fuel (cfg : Cfg α ε) (hd : ∀ c, cfg.decomp c ≠ .fuel) :
+    ∀ (fuel : Nat) (bs : Bytes) (idx : Nat), bs.length < fuel → (readBlocks cfg fuel bs idx).res ≠ .fuel := by
+  intro fuel
+  induction fuel with
+  | zero => intro bs idx h; omega
+  | succ fuel ih =>
+    intro bs idx hf
+    simp only [readBlocks]
+    split
+    · simp
+    · simp
+    · rename_i h; exact absurd h (blockHead_fuel bs).1
+    · simp
+    · rename_i count comp r3 hh
+      have l1 := (blockHead_fuel bs).2 _ _ _ hh
+      unfold blockTail
+      split
+      · simp
+      · simp
+      · rename_i h; exact absurd h (hd _)
+      · split
+        · rename_i data _ _ ds res hdl
+          have := deliver_ne_fuel cfg.decode cfg.cb count.toNat data idx
+          rw [hdl] at this
+          intro h; simp only at h; subst h; exact this rfl
+        · split
+          · simp
+          · rename_i sig r4 hs
+            have l2 := readFull_length hs
+            split
+            · simp
+            · exact ih r4 _ (by omega)
+
+/-- **fuel is enough**: with a step budget above the input length the model never runs out of steps. -/
+theorem fuel_enough (X : Ext α) (fuel : Nat) (cb : Nat → Option ε) (bs : Bytes) (hf : bs.length < fuel) :
+    (readFile X fuel cb bs).res ≠ .fuel := by
+  unfold readFile
+  split
+  · simp
+  · simp
+  · rename_i h; exact absurd h (readFileHeader_fuel fuel bs hf).1
+  · rename_i H rest hh
+    have l1 := (readFileHeader_fuel fuel bs hf).2 H rest hh
+    split
+    · simp
+    · split
+      · simp
+      · split
+        · simp
+        · exact readBlocks_fuel _ (fun c => decompress_ne_fuel X _ c) fuel rest 0 (by omega)
+
+end
+
 end Avro.File
